@@ -64,7 +64,7 @@ class T5(T0):          # a subclass of T0: carrying T5 is NOT carrying T0 (compo
     pass
 
 
-TYPES = [T0, T1, T2, T3, T4]
+TYPES = [T0, T1, T2, T3, T4]     # indexed modulo 5 by templates; index 5 (spatial runs only) is the world-managed PositionComponent
 
 
 class Late(Component):   # attached to an agent AFTER it joined (never registered with the model): see op botched_remove
@@ -83,7 +83,7 @@ def fresh(tag):
 
 def gen_query(rng):
     n = rng.choice([0, 0, 1, 1, 2, 2, 3])
-    tmpl = [rng.choice([0, 1, 2, 3, 3, 4 if rng.random() < 0.3 else 0]) for _ in range(n)]
+    tmpl = [rng.choice([0, 1, 2, 3, 3, 4 if rng.random() < 0.3 else 0, 5 if rng.random() < 0.4 else 1]) for _ in range(n)]
     tag = rng.choice(["absent", "absent", 0, 0, 1, 7, 1001, 2 ** 70])
     return tmpl, tag
 
@@ -182,15 +182,18 @@ def execute(sc, ctx):
             ctx.probe("subclass_component_only" if 0 not in [c % 4 for c in spec["comps"]] else "subclass_and_base")
         return a
 
+    def ttype(t):
+        return PositionComponent if t == 5 else TYPES[t % 5]
+
     def ref_filter(tmpl, tag):
         out = []
         for a in residents:
-            if all(TYPES[t % 5] in a.components for t in tmpl) and (tag == "absent" or a.tag == tag):
+            if all(ttype(t) in a.components for t in tmpl) and (tag == "absent" or a.tag == tag):
                 out.append(a)
         return out
 
     def args(tmpl, tag):
-        return [TYPES[t % 5] for t in tmpl], ({} if tag == "absent" else {"tag": fresh(tag)})
+        return [ttype(t) for t in tmpl], ({} if tag == "absent" else {"tag": fresh(tag)})
 
     def same(got, want):
         return len(got) == len(want) and all(x is y for x, y in zip(got, want))
